@@ -1,6 +1,40 @@
-"""C05 - see properties.jsonl; shared machinery in lib/verdicts.py."""
+"""C05 - the 'got' text is the Debug form of the value that was tested."""
 import verdicts
+
+
+def set_summaries(ck):
+    """T4: the element-count summary pushed by the real set_match is true of the collection."""
+    ck.build_harness("rt")
+    reqs, meta = [], []
+    for _ in range(1500 if ck.tier == "quick" else 30000):
+        P = ck.rng.randint(0, 5)
+        E = ck.rng.randint(0, 7)
+        rest = ck.rng.random() < 0.5
+        dens = ck.rng.choice([0.0, 0.2, 0.5])
+        rows = [("".join("1" if ck.rng.random() < dens else "0" for _ in range(E)) if E else "-") for _ in range(P)]
+        reqs.append(("setmatch %d %d %d %s" % (1 if rest else 0, P, E, " ".join(rows))).rstrip())
+        meta.append((rest, P, E))
+    impl = ck.rt_batch(reqs)
+    model = ck.lean_batch(reqs)
+    bad = 0
+    dist = {}
+    for ln, im, md, (rest, P, E) in zip(reqs, impl, model, meta):
+        if im == "[]":
+            dist["pass"] = dist.get("pass", 0) + 1
+            continue
+        for pu in im.split(";"):
+            _, actual, expected = pu.split("|")
+            kind = "length" if expected != "<none>" else "no-assignment"
+            dist[kind + ("-rest" if rest else "")] = dist.get(kind + ("-rest" if rest else ""), 0) + 1
+            if actual != "%d element(s)" % E:
+                bad += 1
+                ck.report("set-summary:%s" % kind, "the element-count summary of a failing set pattern is not true of the collection",
+                          dict(request=ln, elements=E, patterns=P, rest=rest, impl_actual=actual, model=md))
+    ck.corr_record("T4 set summaries (real set_match: the 'got' text of a failing set pattern must be '<number of elements> element(s)')",
+                   len(reqs), len(set(reqs)), bad, dist, samples=[dict(request=reqs[0], impl=impl[0])],
+                   rule="seeded random match matrices (0-5 patterns x 0-7 elements, both rest settings, densities 0/0.2/0.5 so that length failures and assignment failures with surplus elements both occur); distinct = distinct request")
 
 
 def run(ck):
     verdicts.check(ck, "C05", ["AsModel.Theorems.C05"])
+    set_summaries(ck)
